@@ -160,20 +160,22 @@ open Hpx.Bmoc
 
 /-- **no miss, relative to the classifier**: `inCell d h q` = "the point `q` belongs to cell `(d, h)`", children cover
     their parent.  If the classifier never skips a cell containing a point of the region `R`, every point of `R` lying
-    in the root cell lies in a cell of the output. -/
-theorem coverRec_no_miss {P : Type} (inCell : Nat → Nat → P → Prop) (R : P → Prop)
+    in the root cell lies in a cell of the output.  `I d l` is any relation between depth and recursion level that the
+    descent preserves (e.g. `l = d − d_start`): the classifier needs to be sound only where it holds. -/
+theorem coverRec_no_miss_inv {P : Type} (inCell : Nat → Nat → P → Prop) (R : P → Prop) (I : Nat → Nat → Prop)
     (target : Nat) (κ : Nat → Nat → Nat → Option Verdict)
+    (hI : ∀ d l, I d l → I (d + 1) (l + 1))
     (hcover : ∀ d h q, d ≠ target → inCell d h q → inCell (d + 1) (h <<< 2) q ∨ inCell (d + 1) (h <<< 2 ||| 1) q ∨
       inCell (d + 1) (h <<< 2 ||| 2) q ∨ inCell (d + 1) (h <<< 2 ||| 3) q)
-    (hskip : ∀ d h l, κ d h l = some .skip → ∀ q, inCell d h q → ¬ R q) :
-    ∀ (fuel depth hash level : Nat) (out : List Cell),
+    (hskip : ∀ d h l, I d l → κ d h l = some .skip → ∀ q, inCell d h q → ¬ R q) :
+    ∀ (fuel depth hash level : Nat) (out : List Cell), I depth level →
       coverRec target κ fuel depth hash level = some out →
       ∀ q, inCell depth hash q → R q → ∃ c ∈ out, inCell c.depth c.hash q := by
   intro fuel
   induction fuel with
-  | zero => intro depth hash level out h; simp [coverRec] at h
+  | zero => intro depth hash level out _ h; simp [coverRec] at h
   | succ fuel ih =>
-    intro depth hash level out h q hq hR
+    intro depth hash level out hinv h q hq hR
     unfold coverRec at h
     cases hk : κ depth hash level with
     | none => simp [hk] at h
@@ -181,7 +183,7 @@ theorem coverRec_no_miss {P : Type} (inCell : Nat → Nat → P → Prop) (R : P
       simp only [hk] at h
       cases v with
       | full => cases h; exact ⟨⟨depth, hash, true⟩, by simp, hq⟩
-      | skip => exact absurd hR (hskip _ _ _ hk q hq)
+      | skip => exact absurd hR (hskip _ _ _ hinv hk q hq)
       | descend fl =>
         by_cases heq : (depth == target) = true
         · simp only [heq, if_true] at h; cases h; exact ⟨⟨depth, hash, fl⟩, by simp, hq⟩
@@ -200,36 +202,50 @@ theorem coverRec_no_miss {P : Type} (inCell : Nat → Nat → P → Prop) (R : P
           | some d =>
           simp only [h0, h1, h2, h3] at h
           cases h
+          have hinv' := hI _ _ hinv
           rcases hcover depth hash q (by simpa using heq) hq with hc | hc | hc | hc
-          · obtain ⟨x, hx, hin⟩ := ih _ _ _ _ h0 q hc hR; exact ⟨x, by simp [hx], hin⟩
-          · obtain ⟨x, hx, hin⟩ := ih _ _ _ _ h1 q hc hR; exact ⟨x, by simp [hx], hin⟩
-          · obtain ⟨x, hx, hin⟩ := ih _ _ _ _ h2 q hc hR; exact ⟨x, by simp [hx], hin⟩
-          · obtain ⟨x, hx, hin⟩ := ih _ _ _ _ h3 q hc hR; exact ⟨x, by simp [hx], hin⟩
+          · obtain ⟨x, hx, hin⟩ := ih _ _ _ _ hinv' h0 q hc hR; exact ⟨x, by simp [hx], hin⟩
+          · obtain ⟨x, hx, hin⟩ := ih _ _ _ _ hinv' h1 q hc hR; exact ⟨x, by simp [hx], hin⟩
+          · obtain ⟨x, hx, hin⟩ := ih _ _ _ _ hinv' h2 q hc hR; exact ⟨x, by simp [hx], hin⟩
+          · obtain ⟨x, hx, hin⟩ := ih _ _ _ _ hinv' h3 q hc hR; exact ⟨x, by simp [hx], hin⟩
 
-/-- **flags, relative to the classifier**: a cell of the output flagged full was classified `full` -/
-theorem coverRec_full_rule (target : Nat) (κ : Nat → Nat → Nat → Option Verdict) :
+theorem coverRec_no_miss {P : Type} (inCell : Nat → Nat → P → Prop) (R : P → Prop)
+    (target : Nat) (κ : Nat → Nat → Nat → Option Verdict)
+    (hcover : ∀ d h q, d ≠ target → inCell d h q → inCell (d + 1) (h <<< 2) q ∨ inCell (d + 1) (h <<< 2 ||| 1) q ∨
+      inCell (d + 1) (h <<< 2 ||| 2) q ∨ inCell (d + 1) (h <<< 2 ||| 3) q)
+    (hskip : ∀ d h l, κ d h l = some .skip → ∀ q, inCell d h q → ¬ R q) :
     ∀ (fuel depth hash level : Nat) (out : List Cell),
       coverRec target κ fuel depth hash level = some out →
-      ∀ c ∈ out, c.full = true → ∃ l, κ c.depth c.hash l = some .full ∨
-        (c.depth = target ∧ κ c.depth c.hash l = some (.descend true)) := by
+      ∀ q, inCell depth hash q → R q → ∃ c ∈ out, inCell c.depth c.hash q := by
+  intro fuel depth hash level out h
+  exact coverRec_no_miss_inv inCell R (fun _ _ => True) target κ (fun _ _ _ => trivial) hcover
+    (fun d hh l _ => hskip d hh l) fuel depth hash level out trivial h
+
+/-- **flags, relative to the classifier**: a cell of the output flagged full was classified `full` -/
+theorem coverRec_full_rule_inv (I : Nat → Nat → Prop) (target : Nat) (κ : Nat → Nat → Nat → Option Verdict)
+    (hI : ∀ d l, I d l → I (d + 1) (l + 1)) :
+    ∀ (fuel depth hash level : Nat) (out : List Cell), I depth level →
+      coverRec target κ fuel depth hash level = some out →
+      ∀ c ∈ out, c.full = true → ∃ l, I c.depth l ∧ (κ c.depth c.hash l = some .full ∨
+        (c.depth = target ∧ κ c.depth c.hash l = some (.descend true))) := by
   intro fuel
   induction fuel with
-  | zero => intro depth hash level out h; simp [coverRec] at h
+  | zero => intro depth hash level out _ h; simp [coverRec] at h
   | succ fuel ih =>
-    intro depth hash level out h c hc hf
+    intro depth hash level out hinv h c hc hf
     unfold coverRec at h
     cases hk : κ depth hash level with
     | none => simp [hk] at h
     | some v =>
       simp only [hk] at h
       cases v with
-      | full => cases h; simp at hc; subst hc; exact ⟨level, Or.inl hk⟩
+      | full => cases h; simp at hc; subst hc; exact ⟨level, hinv, Or.inl hk⟩
       | skip => cases h; simp at hc
       | descend fl =>
         by_cases heq : (depth == target) = true
         · simp only [heq, if_true] at h; cases h; simp at hc; subst hc
           simp only [] at hf; subst hf
-          exact ⟨level, Or.inr ⟨by simpa using heq, hk⟩⟩
+          exact ⟨level, hinv, Or.inr ⟨by simpa using heq, hk⟩⟩
         · simp only [heq, Bool.false_eq_true, if_false] at h
           cases h0 : coverRec target κ fuel (depth + 1) (hash <<< 2) (level + 1) with
           | none => simp [h0] at h
@@ -247,10 +263,20 @@ theorem coverRec_full_rule (target : Nat) (κ : Nat → Nat → Nat → Option V
           cases h
           simp only [List.mem_append] at hc
           rcases hc with ((hc | hc) | hc) | hc
-          · exact ih _ _ _ _ h0 c hc hf
-          · exact ih _ _ _ _ h1 c hc hf
-          · exact ih _ _ _ _ h2 c hc hf
-          · exact ih _ _ _ _ h3 c hc hf
+          · exact ih _ _ _ _ (hI _ _ hinv) h0 c hc hf
+          · exact ih _ _ _ _ (hI _ _ hinv) h1 c hc hf
+          · exact ih _ _ _ _ (hI _ _ hinv) h2 c hc hf
+          · exact ih _ _ _ _ (hI _ _ hinv) h3 c hc hf
+
+theorem coverRec_full_rule (target : Nat) (κ : Nat → Nat → Nat → Option Verdict) :
+    ∀ (fuel depth hash level : Nat) (out : List Cell),
+      coverRec target κ fuel depth hash level = some out →
+      ∀ c ∈ out, c.full = true → ∃ l, κ c.depth c.hash l = some .full ∨
+        (c.depth = target ∧ κ c.depth c.hash l = some (.descend true)) := by
+  intro fuel depth hash level out h c hc hf
+  obtain ⟨l, _, hl⟩ := coverRec_full_rule_inv (fun _ _ => True) target κ (fun _ _ _ => trivial) fuel depth hash level out
+    trivial h c hc hf
+  exact ⟨l, hl⟩
 
 end Hpx.Cover
 
